@@ -74,3 +74,42 @@ def stores(fn, F, local_name, cut_loops=True, through_deref=False):
         elif len(pr) == 1 and isinstance(pr[0], dict) and 'cidx' in pr[0]:
             out.append((str(pr[0]['cidx']), cn.c(norm(P.rvalue(st['rv'], b, i, 0)))))
     return out
+
+
+def shorten_vars(s):
+    """`var:name=<initialiser expression>` -> `name` (the initialiser of an in-place mutated local is not part of the
+    per-iteration structure)"""
+    out = []
+    i = 0
+    n = len(s)
+    while i < n:
+        if s.startswith('var:', i):
+            j = i + 4
+            while j < n and (s[j].isalnum() or s[j] in '_@'):
+                j += 1
+            name = s[i + 4:j]
+            if j < n and s[j] == '=':
+                k = j + 1
+                # identifier part
+                while k < n and (s[k].isalnum() or s[k] in '_:.$#'):
+                    k += 1
+                if k < n and s[k] in '({[':
+                    depth = 0
+                    while k < n:
+                        if s[k] in '({[':
+                            depth += 1
+                        elif s[k] in ')}]':
+                            depth -= 1
+                            if depth == 0:
+                                k += 1
+                                break
+                        k += 1
+                out.append(name)
+                i = k
+                continue
+            out.append(name)
+            i = j
+            continue
+        out.append(s[i])
+        i += 1
+    return ''.join(out)
